@@ -751,11 +751,18 @@ func (r *RIB) callResolvedEntryHook(optype constants.OpType, netinst string, aft
 // AFT struct, of the set of RIBs stored by the instance r. A DeepCopy of the RIBs is returned,
 // along with an error that indicates whether the entries could be copied.
 func (r *RIB) copyRIBs() (map[string]*aft.RIB, error) {
+	// The per-network instance locks are not taken whilst holding nrMu, since Flush
+	// looks up network instances (taking nrMu) whilst it holds a network instance's
+	// lock - with a pending writer of nrMu the two would deadlock.
 	r.nrMu.RLock()
-	defer r.nrMu.RUnlock()
+	niRIBs := make(map[string]*RIBHolder, len(r.niRIB))
+	for name, niR := range r.niRIB {
+		niRIBs[name] = niR
+	}
+	r.nrMu.RUnlock()
 
 	rib := map[string]*aft.RIB{}
-	for name, niR := range r.niRIB {
+	for name, niR := range niRIBs {
 		niR.mu.RLock()
 		// this is likely expensive on very large RIBs, but with today's implementation
 		// it seems acceptable, since we then allow the caller not to have to figure out
